@@ -173,7 +173,11 @@ type shared struct {
 var propC04, propC07 bool
 
 func runItem(w *hx.Worker, sh *shared, it genfam.Item, onlyInput *string) {
-	rt, err := lexer.New(it.Def.ToRules())
+	var rt *lexer.StatefulDefinition
+	var err error
+	if pan, msg := hx.Guard(func() { rt, err = lexer.New(it.Def.ToRules()) }); pan {
+		err = fmt.Errorf("lexer.New panicked: %s", msg)
+	}
 	if err != nil {
 		w.Count("definitions_rejected_by_constructor", 1)
 		return
